@@ -9,6 +9,10 @@ use ::vstd::prelude::*;
 verus! {
 //@include units/types.inc
 //@include units/spec_common.inc
+} // verus!
+//@include units/clones.inc
+verus! {
+//@include units/spec_lookups.inc
 
 // =====================================================================================================
 // U4 — trait skeletons, body wrappers, quote_action, render_parent
@@ -367,15 +371,10 @@ spec fn spec_main_ok<'a>(ctx: ImplContext<'a>) -> Toks {
 
 
 // ---------------------------------------------------------------- dispatch: (kind, fallible) -> skeleton (C04 C07)
-// ASSUMED (unreached callees): vars(...) prelude and bare-#[parent] pouring statements
-uninterp spec fn spec_pre_init<'a>(ctx: ImplContext<'a>) -> Option<Toks>;
+// ASSUMED (unreached callee): bare-#[parent] pouring statements
 uninterp spec fn spec_post_init<'a>(input: DataType<'a>, ctx: ImplContext<'a>) -> Option<Toks>;
 
-//@stub expand.rs struct_pre_init ::= fn struct_pre_init(ctx: &ImplContext) -> Option<TokenStream>
-#[verifier::external_body]
-fn struct_pre_init(ctx: &ImplContext) -> (r: Option<TokenStream>)
-    ensures otoks(r) == spec_pre_init(*ctx),
-{ unimplemented!() }
+//@assume U9 expand.rs struct_pre_init
 
 //@stub expand.rs struct_post_init ::= fn struct_post_init(input: &DataType, ctx: &ImplContext) -> Option<TokenStream>
 #[verifier::external_body]
@@ -416,6 +415,89 @@ spec fn spec_impl<'a>(input: DataType<'a>, ctx0: ImplContext<'a>) -> Toks {
     ensures
         r@ =~= spec_impl(*input, *old(ctx)), // #kind-to-trait
         *final(ctx) == with_post_init(*old(ctx), the_post_init(*input, *old(ctx)) is Some), // #ctx-frame
+//@end
+
+
+// ---------------------------------------------------------------- data_type_impl: one impl per (kind, fallibility, instruction) (C04)
+//@assume U2 attr.rs DataTypeAttrs::iter_for_kind_core
+
+//@fn ast.rs DataType::get_ident
+//@props C04
+//@spec
+    ensures *r == (match *self { DataType::Struct(s) => *s.ident, DataType::Enum(e) => *e.ident }), // #own-name
+//@end
+//@fn ast.rs DataType::get_attrs
+//@props C04
+//@spec
+    ensures *r == dt_attrs(*self), // #own-attrs
+//@end
+
+spec fn dt_ident<'a>(d: DataType<'a>) -> Ident { match d { DataType::Struct(s) => *s.ident, DataType::Enum(e) => *e.ident } }
+spec fn dt_impl_type<'a>(d: DataType<'a>) -> ImplType { match d { DataType::Struct(_) => ImplType::Struct, DataType::Enum(_) => ImplType::Enum } }
+
+// the conversion context of one requested impl: From kinds build the deriving type from the counterpart, the others the reverse
+spec fn mk_ctx<'a>(input: &'a DataType<'a>, c: &'a TraitAttrCore, k: Kind, f: bool, ty: &'a TokenStream) -> ImplContext<'a> {
+    ImplContext {
+        input, impl_type: dt_impl_type(*input), struct_attr: c, kind: k,
+        dst_ty: if k_is_from(k) { ty } else { &c.ty.path },
+        src_ty: if k_is_from(k) { &c.ty.path } else { ty },
+        has_post_init: false, fallible: f,
+    }
+}
+spec fn mk_ctx_fn<'a>(input: &'a DataType<'a>, k: Kind, f: bool, ty: &'a TokenStream) -> spec_fn(&'a TraitAttrCore) -> ImplContext<'a> {
+    |c: &'a TraitAttrCore| mk_ctx(input, c, k, f, ty)
+}
+// the instructions requesting (k, f), in the order written
+spec fn ctxs_for<'a>(input: &'a DataType<'a>, k: Kind, f: bool, ty: &'a TokenStream) -> Seq<ImplContext<'a>> {
+    sfilter(refs(dt_attrs(*input).attrs@), p_tkind(k, f)).map_values(tcore_of()).map_values(mk_ctx_fn(input, k, f, ty))
+}
+spec fn all_ctxs<'a>(input: &'a DataType<'a>, ty: &'a TokenStream) -> Seq<ImplContext<'a>> {
+    Seq::<ImplContext>::empty()
+    + ctxs_for(input, Kind::FromOwned, false, ty) + ctxs_for(input, Kind::FromOwned, true, ty)
+    + ctxs_for(input, Kind::FromRef, false, ty) + ctxs_for(input, Kind::FromRef, true, ty)
+    + ctxs_for(input, Kind::OwnedInto, false, ty) + ctxs_for(input, Kind::OwnedInto, true, ty)
+    + ctxs_for(input, Kind::RefInto, false, ty) + ctxs_for(input, Kind::RefInto, true, ty)
+    + ctxs_for(input, Kind::OwnedIntoExisting, false, ty) + ctxs_for(input, Kind::OwnedIntoExisting, true, ty)
+    + ctxs_for(input, Kind::RefIntoExisting, false, ty) + ctxs_for(input, Kind::RefIntoExisting, true, ty)
+}
+spec fn impl_of<'a>(input: &'a DataType<'a>) -> spec_fn(ImplContext<'a>) -> Toks { |c: ImplContext<'a>| spec_impl(*input, c) }
+spec fn ctx_ok<'a>(c: ImplContext<'a>) -> bool { c.fallible ==> c.struct_attr.err_ty is Some }
+
+//@fn expand.rs data_type_impl
+//@props C04,C16
+//@attr #[verifier::rlimit(2000)]
+//@uses flat_lemmas::group_flat, flat_lemmas::group_seq, ts_axioms::axiom_token_stream_is_its_tokens
+//@spec
+    requires
+        forall|j: int| 0 <= j < dt_attrs(input).attrs@.len() ==> ((#[trigger] dt_attrs(input).attrs@[j]).fallible ==> dt_attrs(input).attrs@[j].core.err_ty is Some), // #fallible-instructions-declare-an-error-type [C16]
+    ensures
+        forall|ty: TokenStream| ty@ == dt_ident(input).toks() ==> r@ == flat(#[trigger] all_ctxs(&input, &ty).map_values(impl_of(&input))), // #one-impl-per-requested-kind-fallibility-instruction
+//@closure 0
+    |struct_attr: &TraitAttrCore| -> (r: ImplContext) ensures r == mk_ctx(&input, struct_attr, Kind::FromOwned, false, &ty)
+//@closure 1
+    |struct_attr: &TraitAttrCore| -> (r: ImplContext) ensures r == mk_ctx(&input, struct_attr, Kind::FromOwned, true, &ty)
+//@closure 2
+    |struct_attr: &TraitAttrCore| -> (r: ImplContext) ensures r == mk_ctx(&input, struct_attr, Kind::FromRef, false, &ty)
+//@closure 3
+    |struct_attr: &TraitAttrCore| -> (r: ImplContext) ensures r == mk_ctx(&input, struct_attr, Kind::FromRef, true, &ty)
+//@closure 4
+    |struct_attr: &TraitAttrCore| -> (r: ImplContext) ensures r == mk_ctx(&input, struct_attr, Kind::OwnedInto, false, &ty)
+//@closure 5
+    |struct_attr: &TraitAttrCore| -> (r: ImplContext) ensures r == mk_ctx(&input, struct_attr, Kind::OwnedInto, true, &ty)
+//@closure 6
+    |struct_attr: &TraitAttrCore| -> (r: ImplContext) ensures r == mk_ctx(&input, struct_attr, Kind::RefInto, false, &ty)
+//@closure 7
+    |struct_attr: &TraitAttrCore| -> (r: ImplContext) ensures r == mk_ctx(&input, struct_attr, Kind::RefInto, true, &ty)
+//@closure 8
+    |struct_attr: &TraitAttrCore| -> (r: ImplContext) ensures r == mk_ctx(&input, struct_attr, Kind::OwnedIntoExisting, false, &ty)
+//@closure 9
+    |struct_attr: &TraitAttrCore| -> (r: ImplContext) ensures r == mk_ctx(&input, struct_attr, Kind::OwnedIntoExisting, true, &ty)
+//@closure 10
+    |struct_attr: &TraitAttrCore| -> (r: ImplContext) ensures r == mk_ctx(&input, struct_attr, Kind::RefIntoExisting, false, &ty)
+//@closure 11
+    |struct_attr: &TraitAttrCore| -> (r: ImplContext) ensures r == mk_ctx(&input, struct_attr, Kind::RefIntoExisting, true, &ty)
+//@closure 12
+    |mut ctx: ImplContext| -> (r: TokenStream) requires ctx_ok(ctx) ensures r@ == spec_impl(input, ctx)
 //@end
 
 } // verus!
